@@ -406,15 +406,115 @@ theorem loop_fold (wa : Array Nat) (n : Nat) (c : List Nat) (c0 : Nat) (hc : Raw
       have e : a + 1 + len = a + (len + 1) := by omega
       rw [e] at this; exact this
 
+/-! ## a raw chain visits no cluster twice -/
+
+theorem rawChain_det (words : Array Nat) : ∀ c1 c2, RawChain words c1 → RawChain words c2 →
+    c1.head? = c2.head? → c1 = c2 := by
+  intro c1
+  induction c1 with
+  | nil => intro c2 h; exact absurd h (by simp [RawChain])
+  | cons a r1 ih =>
+    intro c2 h1 h2 hh
+    cases c2 with
+    | nil => exact absurd h2 (by simp [RawChain])
+    | cons a' r2 =>
+      simp at hh; subst hh
+      cases r1 with
+      | nil =>
+        cases r2 with
+        | nil => rfl
+        | cons b2 r2' =>
+          exfalso
+          obtain ⟨v, hv, hend⟩ := h1
+          rw [h2.1.1] at hv; cases hv
+          have := h2.1.2.2.2.2
+          omega
+      | cons b1 r1' =>
+        cases r2 with
+        | nil =>
+          exfalso
+          obtain ⟨v, hv, hend⟩ := h2
+          rw [h1.1.1] at hv; cases hv
+          have := h1.1.2.2.2.2
+          omega
+        | cons b2 r2' =>
+          have e : b1 = b2 := by
+            have := h1.1.1; rw [h2.1.1] at this; cases this; rfl
+          subst e
+          rw [ih (b1 :: r2') h1.2 h2.2 rfl]
+
+theorem rawChain_suffix (words : Array Nat) : ∀ (l1 : List Nat) (a : Nat) (l2 : List Nat),
+    RawChain words (l1 ++ a :: l2) → RawChain words (a :: l2) := by
+  intro l1
+  induction l1 with
+  | nil => intro a l2 h; simpa using h
+  | cons x r ih =>
+    intro a l2 h
+    cases r with
+    | nil => exact h.2
+    | cons y r' => exact ih a l2 h.2
+
+theorem rawChain_nodup (words : Array Nat) : ∀ c, RawChain words c → c.Nodup := by
+  intro c
+  induction c with
+  | nil => intro h; exact absurd h (by simp [RawChain])
+  | cons a rest ih =>
+    intro h
+    rw [List.nodup_cons]
+    constructor
+    · intro hm
+      obtain ⟨l1, l2, e⟩ := List.append_of_mem hm
+      have hs : RawChain words (a :: l2) := by
+        apply rawChain_suffix words (a :: l1) a l2
+        rw [e] at h; exact h
+      have := rawChain_det words (a :: rest) (a :: l2) h hs rfl
+      rw [e] at this
+      have hl := congrArg List.length this
+      simp at hl
+      omega
+    · cases rest with
+      | nil => simp
+      | cons b r => exact ih h.2
+
+theorem rawChain_lt (words : Array Nat) : ∀ c, RawChain words c → ∀ x ∈ c, x < words.size := by
+  intro c
+  induction c with
+  | nil => intro h; exact absurd h (by simp [RawChain])
+  | cons a rest ih =>
+    intro h x hx
+    have hlt : ∀ (y v : Nat), words[y]? = some v → y < words.size := by
+      intro y v hv
+      rcases Nat.lt_or_ge y words.size with h' | h'
+      · exact h'
+      · rw [Array.getElem?_eq_none h'] at hv; cases hv
+    cases rest with
+    | nil =>
+      simp at hx; subst hx
+      obtain ⟨v, hv, _⟩ := h
+      exact hlt _ _ hv
+    | cons b r =>
+      rcases List.mem_cons.mp hx with rfl | hx'
+      · exact hlt _ _ h.1.1
+      · exact ih h.2 x hx'
+
+theorem rawChain_length (words : Array Nat) (c : List Nat) (hc : RawChain words c) :
+    c.length ≤ words.size := by
+  have hsub : c ⊆ List.range words.size := by
+    intro x hx
+    rw [List.mem_range]
+    exact rawChain_lt words c hc x hx
+  have := List.Nodup.length_le_of_subset (rawChain_nodup words c hc) hsub
+  simpa using this
+
 /-- **Roland FAT decoding is complete for well-formed chains.** If the raw FAT holds a chain `c`
 (each cluster's word names the next, the last one's word is an end mark) that starts at an
 allocatable cluster no FAT word points to, and the decoder accepts the table, then the decoded
 link table contains `c` as a chain — so `get_path` from its head resolves exactly `c`, in order. -/
 theorem C07_roland_wf (words : List Nat) (links : List Link) (h : rolandDecode words = .ok links)
     (c : List Nat) (hc : RawChain words.toArray c) (hc0 : 2 ≤ c.headD 0)
-    (hc0hi : c.headD 0 < words.length - 9) (hnopred : ∀ y : Nat, words.toArray[y]? ≠ some (c.headD 0))
-    (hlen : c.length ≤ words.length) :
+    (hc0hi : c.headD 0 < words.length - 9) (hnopred : ∀ y : Nat, words.toArray[y]? ≠ some (c.headD 0)) :
     Chain links c ∧ getPath links words.length (c.headD 0) = .ok c := by
+  have hlen : c.length ≤ words.length := by simpa using rawChain_length words.toArray c hc
   have hchain : Chain links c := by
     unfold rolandDecode at h
     simp only at h
